@@ -151,6 +151,7 @@ static void do_cert(char **tok, int n)
             const char *crit = (opt(tok, n, "kucrit") && !atoi(opt(tok, n, "kucrit"))) ? "" : "critical,";
             if (!strcmp(v, "certSign")) snprintf(buf, sizeof(buf), "%skeyCertSign,cRLSign", crit);
             else if (!strcmp(v, "digSig")) snprintf(buf, sizeof(buf), "%sdigitalSignature,keyEncipherment", crit);
+            else if (!strcmp(v, "keyAgree")) snprintf(buf, sizeof(buf), "%sdigitalSignature,keyAgreement", crit);
             else snprintf(buf, sizeof(buf), "%sdigitalSignature,keyEncipherment,keyCertSign,cRLSign", crit);
             add_ext(x, NULL, NID_key_usage, buf);
         }
